@@ -158,10 +158,10 @@ struct Case
   vf::Options opt;
 };
 
-static void logStats(const char *ev, const std::string &th, Map &m, const char *op)
+static void logStats(const char *ev, const std::string &th, Map &m, const char *op, int fair = 1)
 {
   auto s = m.stats();
-  g_tr->add(vf::Ev(ev).i("t", vnow()).str("th", th).str("op", op).i("size", (long long)s.size).i("hits", (long long)s.hits).i("misses", (long long)s.misses).i("ev", (long long)s.evictions));
+  g_tr->add(vf::Ev(ev).i("t", vnow()).str("th", th).str("op", op).i("fair", fair).i("size", (long long)s.size).i("hits", (long long)s.hits).i("misses", (long long)s.misses).i("ev", (long long)s.evictions));
 }
 
 static void runOp(Map &m, const std::string &th, const xc::Op &op)
@@ -245,13 +245,16 @@ static std::string runOne(const Case &c, const vf::Options &opt, bool emitSched)
               vf::point("teardown");
               if (c.teardown != 2)
               {
-                // settle: nobody but the sweeper is left; three sweep intervals pass, one second at a time
+                // settle: nobody but the sweeper is left; three sweep intervals pass, one second at a time.  The sweeper is
+                // only OBLIGED to have run if it was never passed over while it could run (a random schedule may grant our
+                // sleeps although the timer thread is runnable: an unfair jump - then Settle carries fair = 0)
+                long unfair0 = vf::unfairJumps();
                 for (int i = 0; i < 3 * c.sweep; ++i)
                 {
                   std::this_thread::sleep_for(std::chrono::seconds(1));
                   tr->add(vf::Ev("Tick").i("t", vnow()));
                 }
-                logStats("Settle", "main", *map, "settle");
+                logStats("Settle", "main", *map, "settle", vf::unfairJumps() == unfair0 ? 1 : 0);
               }
               if (c.teardown == 0)
               {
